@@ -84,14 +84,19 @@ def recipSqrtRat (x : UInt32) : Outcome (Option Rat) :=
     | some xv, some y => .ok (some (newtonStep xv y))
     | _, _ => .ok none
 
-/-! ### Pixel-centre rounding, raster.rs:228-238 -/
+/-! ### Pixel-centre rounding, raster.rs:233-245 (after fix b772987) -/
 
-/-- `#[cfg(feature = "fp")] f32::floor(x + 0.5) + 0.5`, parametrised by the back end's `floor`. -/
+/-- raster.rs:242-244 `if n - 0.5 > x { n - 0.5 } else { n + 0.5 }`: `x + 0.5` is not always exact
+(0.49999997 + 0.5 rounds up to 1.0), so the candidate centre below `n` is compared with `x` itself. -/
+def roundUpHalfCore (n x : UInt32) : UInt32 :=
+  if gt (sub n half) x then sub n half else add n half
+
+/-- `#[cfg(feature = "fp")] let n = f32::floor(x + 0.5)`, parametrised by the back end's `floor`. -/
 def roundUpHalfFp (floorF : UInt32 → UInt32) (x : UInt32) : UInt32 :=
-  add (floorF (add x half)) half
+  roundUpHalfCore (floorF (add x half)) x
 
-/-- `#[cfg(not(feature = "fp"))] (x + 0.5) as i32 as f32 + 0.5`. -/
+/-- `#[cfg(not(feature = "fp"))] let n = (x + 0.5) as i32 as f32`. -/
 def roundUpHalfNoFp (x : UInt32) : UInt32 :=
-  add (intToF32 (toI32Sat (add x half))) half
+  roundUpHalfCore (intToF32 (toI32Sat (add x half))) x
 
 end Retro.FloatFallback
